@@ -278,7 +278,9 @@ theorem getName_region (m g : Mesh) (name : String) (h : getName m name = .ok g)
           · cases h
           · split at h
             · cases h
-            · injection h with h; subst h; rfl
+            · split at h
+              · cases h
+              · injection h with h; subst h; rfl
 
 
 /-! ## the subregion invariant `SubInv` (exact-arithmetic reading) -/
